@@ -259,7 +259,8 @@ def run(ctx):
             ctx.violate("mc", "mc:%s:%s" % (r.violation["kind"], r.violation["name"]), r.violation["text"])
     sets = [("Gen_Xds_q", [0, 0], [16, 17])] if quick else [("Gen_Xds_q", [0, 0], [16, 17]), ("Gen_Xds_t", CLS3, TYP3)]
     for cfg, cls, typ in sets:
-        r = tlc.run("Gen_Xds", cfg, timeout=1500, collect_tr=True, heap="12g")
+        # Gen_Xds_t prints 5.1 M behaviours: every 4th is replayed (seeded offset), TLC has checked all of them
+        r = tlc.run("Gen_Xds", cfg, timeout=2400, collect_tr=True, heap="12g", sample_tr=(4, ctx.seed) if cfg == "Gen_Xds_t" else None)
         if r.violation:
             raise tlc.ToolFailure("GEN run reported " + str(r.violation))
         ctx.add_mc(r, "GEN " + cfg)
